@@ -224,6 +224,10 @@ def run(ctx):
             ctx.case(("floorrun", repr(sorted(cfg.items()))), nontrivial=True)
 
     # ---------------- (d) covariance floor on raw optimiser output
+    if getattr(gl, "_reconstruct_optimized_matrix", None) is None:
+        ctx.notes.append("private helper graphical_lasso._reconstruct_optimized_matrix not found: the helper-level floor "
+                         "comparison is skipped; the floor is still checked end to end (c2)")
+        floors = []
     lines = []
     raws = []
     for c in floors:
